@@ -63,7 +63,9 @@ where
     zvt::encoding::Default: zvt::encoding::Encoding<T>,
 {
     let (_, rest) = T::zvt_deserialize(b)?;
-    Ok(rest.len())
+    // the remainder must be a suffix of the input (usize::MAX signals that it is not)
+    let suffix = rest.is_empty() || (rest.len() <= b.len() && rest.as_ptr() as usize + rest.len() == b.as_ptr() as usize + b.len());
+    Ok(if suffix { rest.len() } else { usize::MAX })
 }
 fn eq<T: ZvtSerializer + PartialEq>(a: &[u8], b: &[u8]) -> Option<bool>
 where
